@@ -540,6 +540,10 @@ SEEDS = [
     # stray-brace and format-sensitive shapes
     'Y = {a} + {b}[-1] * <u>',
     'Y = A[0] + B[-1]\nZ = {g}*Y',
+    'Y{[é]} = X',
+    'Y = {a[0]} + {b.c}',
+    'Y = X[] + Z[ ]',
+    '```\nself.Y[t] = = 1\n```',
     # long names, digits, dots
     'GDP_real_2020 = consumption_1 + investment_2 + 0.5 * stock.level',
     'Y = 1.5e3 * X + .5',
